@@ -172,6 +172,11 @@ func fieldMarkers(pass *analysis.Pass, field *ast.Field, results *markers) {
 		}
 		results.insertFieldMarker(field, marker)
 
+		// Embedded fields have no names (and no object to attach the fact to).
+		if len(field.Names) == 0 {
+			continue
+		}
+
 		if obj, ok := pass.TypesInfo.Defs[field.Names[0]]; ok {
 			pass.ExportObjectFact(obj, &MarkerFact{
 				Identifier:  identifier,
